@@ -27,6 +27,13 @@
      c13_wake_all           wake_all detaches the whole list; every detached node is untaken-and-queued or being
                             cancelled, every node it took has its coroutine suspended on it (and is resumed once, by it)
      c13_nonmatching        a wait whose value does not match does not suspend, publishes no token, returns its slot
+     c13_suspend_atomic     the value check and the enqueue of add_awaiter are one step (as FUTEX(2)): the coroutine is
+                            queued and suspended with the word equal to its expected value, or goes on unsuspended; so
+                            no wake can fall between the two (no lost wakeup: with c13_quiescent / c13_wake_all every
+                            waiter queued before a wake_all's critical section is taken by it, every later one saw the
+                            new word).  [bad] of c13_resume_once also counts nodes queued on a non-matching word.
+                            Holds because the regenerated flag add_compare_under_lock is 1 (c13_code_paths);
+                            c13_unlocked_compare_refuted is the lost wakeup of the machine with the flag 0
      c13_cancel_iff_empty   BasicCancellable: whatever the calls of cancel / resume on one id, the awaiter is resumed
                             exactly once, by the first, and its optional is empty iff that first call was a cancel
    Partial / not mechanised: liveness is in safety form (c13_quiescent: no reachable quiescent state strands or leaks
@@ -101,6 +108,14 @@ Theorem c13_nonmatching : forall s i k j n x tok s',
 Proof. exact t_nonmatching. Qed.
 Print Assumptions c13_nonmatching.
 
+Theorem c13_suspend_atomic : forall s i k j n x tok s',
+  nth_error (coros s) i = Some k -> kstv k = KLock j n -> nth_error (kprog k) j = Some (x, tok) ->
+  step_coro gen_cfg s i k = Some s' ->
+  (x = fv s /\ lst s' = n :: lst s /\ kstat s' i = KSusp j n) \/
+  (x <> fv s /\ lst s' = lst s /\ kstat s' i = KReady (S j)).
+Proof. exact t_suspend_atomic. Qed.
+Print Assumptions c13_suspend_atomic.
+
 Theorem c13_cancel_iff_empty : forall idv w calls,
   cresumed (crun idv (w :: calls)) = 1%nat /\ cwins (crun idv (w :: calls)) = [w] /\
   (cresult_empty (crun idv (w :: calls)) = true <-> w = CCancel).
@@ -125,6 +140,14 @@ Theorem c13_asis_wake_all_refuted : exists sch,
   quiescent s = true /\ map cres (clients s) = [[RWA 1]] /\ map kstv (coros s) = [KSusp 0 0; KSusp 1 1] /\ lst s = [1%nat].
 Proof. exact asis_wake_all. Qed.
 Print Assumptions c13_asis_wake_all_refuted.
+
+(* the same machine with add_awaiter comparing the word before it takes the mutex (regenerated flag
+   add_compare_under_lock = 0): waiter compares, waker stores + wake_all on an empty list, waiter enqueues - lost wakeup *)
+Theorem c13_unlocked_compare_refuted : exists sch,
+  let s := run st (step cfg_cmp_unlocked) (init 0 [[OSetV 1; OWakeAll]] [(0%nat, [(0, false)])]) sch in
+  quiescent s = true /\ map cres (clients s) = [[RV; RWA 0]] /\ map kstv (coros s) = [KSusp 0 0] /\ fv s = 1 /\ bad s = 1%nat.
+Proof. exact unlocked_compare_lost_wakeup. Qed.
+Print Assumptions c13_unlocked_compare_refuted.
 
 (* non-vacuity: reachable states of the repaired code that satisfy the hypotheses above *)
 Example c13_ex_quiescent_waiter :
